@@ -20,7 +20,7 @@ Deterministic(ver) == ver \in {2, 4}        \* Ed25519 signatures are a function
 
 \* the relation the specification prescribes
 Prescribed(r) ==
-  CASE r.dir \in {"forward", "backward", "stable"} -> "equal"
+  CASE r.dir \in {"forward", "backward", "stable", "vector"} -> "equal"
     [] r.dir = "verify" -> "valid"
     [] r.dir = "reference" -> "accepted-same"
     [] OTHER -> "none"
@@ -38,6 +38,7 @@ Verdict(r) ==
          ELSE IF r.kind = "public" /\ r.dir = "forward" /\ ~Deterministic(r.ver) THEN "equality-demanded-of-randomized-signature"
          ELSE IF r.holds THEN "ok"
          ELSE CASE r.dir = "reference" -> "spec-conforming-input-not-accepted-or-differs"
+                [] r.dir = "vector" -> "L1-does-not-reproduce-an-official-vector"
                 [] r.dir = "verify" -> "signature-invalid-under-independent-verifier"
                 [] OTHER -> "output-differs-from-spec"
     [] OTHER -> "unknown-record"
